@@ -2,6 +2,10 @@
 #[cfg(kani)]
 mod util;
 #[cfg(kani)]
+mod c01;
+#[cfg(kani)]
+mod c02;
+#[cfg(kani)]
 mod c11;
 #[cfg(kani)]
 mod c15;
